@@ -138,3 +138,70 @@ Definition apply_step (sp:step) (d:dbstate) : dbstate :=
             (fold_left (fun d x => apply_act (AEff (stmt_eff x)) d) (body_stmts (s_body sp)) d).
 Definition state_after (steps:list step) (d:dbstate) : dbstate := fold_left (fun d sp => apply_step sp d) steps d.
 Definition with_version_table (d:dbstate) : dbstate := mkDb (effs d) true (vrows d).
+
+(* ================================================================== branched histories: the rows through C03 *)
+(* The run is given as the history G and the plan (revision, direction, body); the bookkeeping statements are those of
+   the C03 model of update_to_step (Model/C04Heads.v).  What "the bookkeeping of the committed migrations" amounts to is
+   then said by C03: the rows are exactly the maximal applied revisions. *)
+From AV Require Export Model.RevGraph Model.C04Heads.
+From AV Require Spec.C03.
+
+Definition gapply (m:mstep) (A:list N) : list N := Spec.C03.ghost (ms_rev m) (ms_up m) A.
+Fixpoint gapplied (ms:list mstep) (A:list N) : list N :=       (* the applied set after the migrations ms *)
+  match ms with [] => A | m :: r => gapplied r (gapply m A) end.
+Fixpoint gvalid (G:graph) (A:list N) (ms:list mstep) : Prop :=  (* every step is one the planners may emit (C01/C02) *)
+  match ms with
+  | [] => True
+  | m :: r => Spec.C03.valid_step G A (ms_rev m) (ms_up m) /\ gvalid G (gapply m A) r
+  end.
+Fixpoint gvalidb (G:graph) (A:list N) (ms:list mstep) : bool :=
+  match ms with
+  | [] => true
+  | m :: r => Spec.C03.valid_stepb G A (ms_rev m) (ms_up m) && gvalidb G (gapply m A) r
+  end.
+Definition gpre (gi:ginput) : bool := Spec.C03.pre_C03 (g_graph gi, vrows (g_db0 gi), false, []).
+
+Definition implied (G:graph) (rws:list N) (r:N) : Prop := exists h, In h rws /\ path (all_down G) h r.
+
+Definition C04g_holds (gi:ginput) (o:output) : Prop :=
+  let i := to_input gi in
+  let G := g_graph gi in
+  let ms := g_msteps gi in
+  C04_holds i o /\
+  forall A0, gpre gi = true -> Spec.C03.closure G (vrows (g_db0 gi)) = Some A0 ->
+    wf_refs G -> ~ cyclic (all_down G) -> Spec.C03.ndeps_okb G = true -> gvalid G A0 ms ->
+    let A' := gapplied (firstn (committed_count i) ms) A0 in
+    (* the version rows are exactly the maximal applied revisions of the committed migrations, duplicate-free, an
+       antichain, and they imply exactly that applied set *)
+    Spec.C03.rows_ok G A' (vrows (o_db o)) /\
+    forall k m, fail_index i = Some k -> nth_error ms k = Some m ->
+      (* a failed upgrade: the revision is not applied — not a row, and no row implies it *)
+      (forallb ms_up ms = true -> ~ In (ms_rev m) A') /\
+      (* a failed downgrade: the revision is still applied — some row is it or implies it *)
+      (forallb (fun x => negb (ms_up x)) ms = true -> In (ms_rev m) A').
+
+Definition check_C04g (gi:ginput) (o:output) : bool :=
+  let i := to_input gi in
+  let G := g_graph gi in
+  let ms := g_msteps gi in
+  check_C04 i o &&
+  (negb (gpre gi) ||
+   match Spec.C03.closure G (vrows (g_db0 gi)) with
+   | None => true
+   | Some A0 =>
+       negb (gvalidb G A0 ms) ||
+       (let A' := gapplied (firstn (committed_count i) ms) A0 in
+        Spec.C03.rows_okb G A' (vrows (o_db o)) &&
+        match fail_index i with
+        | None => true
+        | Some k => match nth_error ms k with
+                    | None => true
+                    | Some m => (negb (forallb ms_up ms) || negb (memN (ms_rev m) A')) &&
+                                (negb (forallb (fun x => negb (ms_up x)) ms) || memN (ms_rev m) A')
+                    end
+        end)
+   end).
+
+Definition corr_C04g (gi:ginput) (o:output) : bool :=
+  Spec.C03.ndeps_okb (g_graph gi) && corr_C04 (to_input gi) o.
+Definition inclass_C04g (gi:ginput) : bool := consistent (to_input gi).
